@@ -1730,9 +1730,10 @@ class InTablePhase(Phase):
     def insertText(self, token):
         # If we get here there must be at least one non-whitespace character
         # Do the table magic!
+        insertFromTable = self.tree.insertFromTable
         self.tree.insertFromTable = True
         self.parser.phases["inBody"].processCharacters(token)
-        self.tree.insertFromTable = False
+        self.tree.insertFromTable = insertFromTable
 
     def startTagCaption(self, token):
         self.clearStackToTableContext()
@@ -1791,9 +1792,12 @@ class InTablePhase(Phase):
     def startTagOther(self, token):
         self.parser.parseError("unexpected-start-tag-implies-table-voodoo", {"name": token["name"]})
         # Do the table magic!
+        # (these handlers can be re-entered through implied tags, so restore
+        # the previous value rather than switching foster parenting off)
+        insertFromTable = self.tree.insertFromTable
         self.tree.insertFromTable = True
         new_token = self.parser.phases["inBody"].processStartTag(token)
-        self.tree.insertFromTable = False
+        self.tree.insertFromTable = insertFromTable
         # (the "in body" rules may ask for the token to be reprocessed)
         return new_token
 
@@ -1819,9 +1823,10 @@ class InTablePhase(Phase):
     def endTagOther(self, token):
         self.parser.parseError("unexpected-end-tag-implies-table-voodoo", {"name": token["name"]})
         # Do the table magic!
+        insertFromTable = self.tree.insertFromTable
         self.tree.insertFromTable = True
         new_token = self.parser.phases["inBody"].processEndTag(token)
-        self.tree.insertFromTable = False
+        self.tree.insertFromTable = insertFromTable
         return new_token
 
     startTagHandler = _utils.MethodDispatcher([
